@@ -14,6 +14,8 @@ import (
 	"math/rand"
 	"runtime/debug"
 	"strings"
+	"sync"
+	"sync/atomic"
 
 	hash "github.com/dappledger/AnnChain/gemmill/go-hash"
 	wire "github.com/dappledger/AnnChain/gemmill/go-wire"
@@ -137,11 +139,40 @@ func shortStack() string {
 	return strings.Join(keep, " | ")
 }
 
+// violate reports a violation; the text and witness are only built for the
+// first three reports of a class (lib keeps three replay files per class, the
+// rest is only counted).
+var (
+	vmtx   sync.Mutex
+	vcount = map[string]int{}
+	stacks int32
+)
+
+func violate(key string, mk func() (string, interface{})) {
+	vmtx.Lock()
+	defer vmtx.Unlock()
+	vcount[key]++
+	if vcount[key] > 3 {
+		run.Violation(key, "", nil)
+		return
+	}
+	what, wit := mk()
+	run.Violation(key, what, wit)
+}
+
+// panicStack: stack of the first few hundred panics only (debug.Stack is slow).
+func panicStack() string {
+	if atomic.AddInt32(&stacks, 1) > 300 {
+		return "(stack not recorded)"
+	}
+	return shortStack()
+}
+
 func safeAdd(ps *types.PartSet, p *types.Part) (added bool, err error, pv interface{}, stack string) {
 	defer func() {
 		if r := recover(); r != nil {
 			pv = r
-			stack = shortStack()
+			stack = panicStack()
 		}
 	}()
 	added, err = ps.AddPart(p, true)
@@ -248,22 +279,28 @@ func (r *receiver) judge(o *offer) {
 	case pv != nil:
 		cc.c.add("offers_panicked", 1)
 		cc.c.add("panics["+o.Kind+"]", 1)
-		run.Violation(panicKey(o), fmt.Sprintf("AddPart panicked on offer %s (index %d, total %d): %v [%s]", o.Kind, o.Index, cc.header.Total, pv, stack),
-			cc.witness(o, r, map[string]interface{}{"panic": fmt.Sprint(pv), "stack": stack}))
+		violate(panicKey(o), func() (string, interface{}) {
+			return fmt.Sprintf("AddPart panicked on offer %s (index %d, total %d): %v [%s]", o.Kind, o.Index, cc.header.Total, pv, stack),
+				cc.witness(o, r, map[string]interface{}{"panic": fmt.Sprint(pv), "stack": stack})
+		})
 	case added && !exp:
 		cc.c.add("offers_wrongly_accepted", 1)
 		key := "addpart-accepts-" + o.Class
 		if isGenuine {
 			key = "addpart-accepts-duplicate"
 		}
-		run.Violation(key, fmt.Sprintf("AddPart accepted offer %s (index %d, total %d, part size %d, data length %d) that is not the genuine part for an empty slot", o.Kind, o.Index, cc.header.Total, cc.S, cc.L),
-			cc.witness(o, r, nil))
+		violate(key, func() (string, interface{}) {
+			return fmt.Sprintf("AddPart accepted offer %s (index %d, total %d, part size %d, data length %d) that is not the genuine part for an empty slot", o.Kind, o.Index, cc.header.Total, cc.S, cc.L),
+				cc.witness(o, r, nil)
+		})
 		r.resets++
 		r.reset()
 		return
 	case !added && exp:
 		cc.c.add("offers_genuine_refused", 1)
-		run.Violation("addpart-rejects-genuine", fmt.Sprintf("AddPart refused the genuine part %d of %d (err=%v) offered as %s", o.Index, cc.header.Total, err, o.Kind), cc.witness(o, r, map[string]interface{}{"err": fmt.Sprint(err)}))
+		violate("addpart-rejects-genuine", func() (string, interface{}) {
+			return fmt.Sprintf("AddPart refused the genuine part %d of %d (err=%v) offered as %s", o.Index, cc.header.Total, err, o.Kind), cc.witness(o, r, map[string]interface{}{"err": fmt.Sprint(err)})
+		})
 	case added:
 		cc.c.add("offers_accepted", 1)
 		if err != nil {
@@ -299,8 +336,10 @@ func (r *receiver) judge(o *offer) {
 			key = "panicking-offer-changes-" + what
 		}
 		cc.c.add("state_changes_by_refused_offers", 1)
-		run.Violation(key, fmt.Sprintf("after offer %s (index %d, added=%v, err=%v) the set differs from the model: %s", o.Kind, o.Index, added, err, d),
-			cc.witness(o, r, map[string]interface{}{"state_diff": d}))
+		violate(key, func() (string, interface{}) {
+			return fmt.Sprintf("after offer %s (index %d, added=%v, err=%v) the set differs from the model: %s", o.Kind, o.Index, added, err, d),
+				cc.witness(o, r, map[string]interface{}{"state_diff": d})
+		})
 		r.resets++
 		r.reset()
 	}
@@ -826,7 +865,18 @@ func checkCase(cs caseSpec) {
 		}
 	}
 	if cs.S == 7 && cs.L == 22 || cs.S == 4096 && cs.L == 3*4096+1 {
+		muts := cc.mutations(0)
+		var examples []map[string]interface{}
+		seenClass := map[string]bool{}
+		for _, o := range muts {
+			if seenClass[o.Class] {
+				continue
+			}
+			seenClass[o.Class] = true
+			added, err, pv, _ := safeAdd(types.NewPartSetFromHeader(cc.header), o.part())
+			examples = append(examples, map[string]interface{}{"mutation": o.Kind, "note": o.Note, "index": o.Index, "added": added, "err": fmt.Sprint(err), "panic": fmt.Sprint(pv)})
+		}
 		run.Sample(map[string]interface{}{"part_size": cs.S, "data_len": cs.L, "parts": n, "header_hash": hex.EncodeToString(cc.header.Hash),
-			"proof_of_part_0": auntsHex(cc.g[0].aunts), "permutations": len(perms), "mutations_of_part_0": len(cc.mutations(0))})
+			"proof_of_part_0": auntsHex(cc.g[0].aunts), "permutations": len(perms), "mutations_of_part_0": len(muts), "offers_to_an_empty_receiver": examples})
 	}
 }
